@@ -96,7 +96,7 @@ CHECKS = {
     "C04": {
         "quick": [
             {"name": NODE + "ZZ_C17_E12", "reach": ["E12 succeeded", "E12 failed"], "bound": "contract paths: one contract call / transfer to a contract / deployment / set-document addressed to a contract over the 4 modelled programs (see C17)", "validate": 10},
-            {"name": NODE + "ZZ_C04_N12", "reach": ["N12 success", "N12 failure"] + OK_ALL, "bound": TXB + "; on success the same bytes are delivered again in the same block or in the next block"},
+            {"name": NODE + "ZZ_C04_N12", "reach": ["N12 success", "N12 failure"] + OK_ALL, "bound": TXB + "; on success the same bytes are delivered again in the same block or in the next block; after Commit the committed account records are compared with the state in force"},
         ],
         "bounds": "one transaction + one replay",
         "outside": "contract programs other than the 4 modelled ones (A-EVM); exactly-once over arbitrary histories follows from N1 (a nonce only ever rises by one on success) and is cross-checked by the replay",
